@@ -158,6 +158,19 @@ def make_queries(snap: dict, seed: int, thorough: bool) -> list[dict]:
         if (s, "request") in by_api or (s, "header") in by_api or (s, "data") in by_api:
             continue
         by_name(s, 0, "request")
+    # entity types that are not kio's EntityType but look like it (same member names, same values, as an
+    # Enum and as an IntEnum): "any other entity type" raises the documented error
+    import enum
+    Foreign = enum.Enum("EntityType", {e.name: e.value for e in EntityType})
+    vals = {e.name: (e.value if isinstance(e.value, int) else i + 1) for i, e in enumerate(EntityType)}
+    ForeignInt = enum.IntEnum("EntityTypeInt", vals)
+    for api, et in list(by_api)[:: 5 if not thorough else 1]:
+        vs = by_api[(api, et)]
+        for F in (Foreign, ForeignInt):
+            add("load_entity_schema", "name", False, api, 0, min(vs), et, "class", (api, min(vs), F[et]))
+            add("load_entity_module", "name", False, api, 0, max(vs), et, "module", (api, max(vs), F[et]))
+            if et in ("request", "response") and api in keys:
+                add("load_payload_module", "key", False, "", keys[api], min(vs), et, "module", (keys[api], min(vs), F[et]))
     # a lookup is a function of its arguments: the same queries again in a different order, each one
     # twice in a row (the answer must not depend on what was looked up before, or how often)
     again = list(calls)
